@@ -150,3 +150,62 @@ func ruleReaderConsumedOnce(c *Check, rule string, pkgs ...string) {
 		c.Unknown(rule, "reader-consumed-once", "no call with a reader argument found", "-")
 	}
 }
+
+// ruleNoSharedReaderFromSingleflight: what singleflight.Group.Do returns is handed to every caller that asked
+// for the same key at the same time. A reader (io.Reader, *os.File, an open body) is a one-shot, stateful
+// object: shared, each caller gets a disjoint part of the stream and a clean EOF.
+func ruleNoSharedReaderFromSingleflight(c *Check, rule string) {
+	c.Rule(rule, "no function passed to singleflight.Group.Do/DoChan returns an io.Reader (or anything that implements it): a result that is shared between concurrent callers is not a stream", 0)
+	var readerIface *types.Interface
+	for _, pkg := range c.P.Pkgs {
+		for _, imp := range pkg.Types.Imports() {
+			if imp.Path() == "io" {
+				if o := imp.Scope().Lookup("Reader"); o != nil {
+					readerIface, _ = o.Type().Underlying().(*types.Interface)
+				}
+			}
+		}
+	}
+	n := 0
+	for _, fn := range c.P.Funcs {
+		for _, s := range engine.SitesIn(fn) {
+			name := engine.CalleeName(s)
+			if !strings.HasSuffix(name, "singleflight.Group).Do") && !strings.HasSuffix(name, "singleflight.Group).DoChan") {
+				continue
+			}
+			n++
+			bad := ""
+			for _, a := range s.Common().Args {
+				if _, ok := a.Type().Underlying().(*types.Signature); !ok {
+					continue
+				}
+				for _, lit := range c.G.FuncValuesReaching(a) {
+					for _, r := range engine.Returns(lit) {
+						if len(r.Results) == 0 {
+							continue
+						}
+						for _, o := range engine.Origins(r.Results[0]) {
+							if o == nil {
+								continue
+							}
+							t := o.Type()
+							if tup, ok := t.(*types.Tuple); ok && tup.Len() > 0 {
+								t = tup.At(0).Type()
+							}
+							if ex, ok := o.(*ssa.Extract); ok {
+								t = ex.Type()
+							}
+							if readerIface != nil && (types.Implements(t, readerIface) || types.Implements(types.NewPointer(t), readerIface)) {
+								bad = "the shared function returns a " + t.String()
+							}
+						}
+					}
+				}
+			}
+			c.Require(bad == "", rule, "no-shared-reader/"+c.P.FuncName(fn), "the collapsed call returns a value, not a stream", bad+": concurrent callers for the same key all receive this one reader, so each restore reads a disjoint part of the blob and sees a clean EOF (silently truncated files), or a handle another caller already closed", c.P.InstrPos(s))
+		}
+	}
+	if n == 0 {
+		c.OK(rule, "no-shared-reader", "singleflight is not used", "-")
+	}
+}
